@@ -50,6 +50,11 @@ def gen_stat_overlay(rng, world):
             kv["nlink"] = rng.choice([1, 2, 9, 10, 11, 100])
         if rng.random() < 0.5:
             kv["blocks"] = rng.choice([0, 8, 16, 80, 96, 104, 1000])
+        if rng.random() < 0.2:
+            # 64-bit answers that differ by less than one f64 ulp
+            kv["size"] = rng.choice([2 ** 53, 2 ** 53 + 1, 2 ** 53 + 2, 2 ** 53 + 3, 2 ** 60 + 1, 2 ** 60 + 2, 2 ** 62 + 5, 2 ** 62 + 6])
+        if rng.random() < 0.15:
+            kv["ino"] = rng.choice([2 ** 53 + 1, 2 ** 61 + 1]) + len(st)  # unique per node (len(st) grows with every overlaid node)
         if kv:
             st[n["path"]] = kv
     return st
@@ -79,6 +84,10 @@ def order_clause(keys, select_cols, rng_positional):
 def keyval(kind, raw):
     """Typed key value from fselect's own printed value; None when not interpretable (no constraint then)."""
     if kind == "num":
+        try:
+            return int(raw)  # exact: 2^53 and 2^53 + 1 are different keys
+        except ValueError:
+            pass
         try:
             return float(raw)
         except ValueError:
